@@ -28,6 +28,14 @@ pub struct Obj {
 
 pub const THREAD_STACK: usize = 16 << 20;
 
+/// (tokenize iterator is Send, analyze iterator is Send) on the tree under test.
+pub fn iter_send() -> (bool, bool) {
+    static P: std::sync::OnceLock<(bool, bool)> = std::sync::OnceLock::new();
+    // the probe compiles a trivial pattern: it is evaluated by the worker right after
+    // start-up of its first run, never inside a simulated call
+    *P.get_or_init(crate::probe::iter_send_probe)
+}
+
 /// A call to be made from a thread-local destructor at thread exit (F10b).
 struct ExitCall {
     sim: Arc<SimThread>,
@@ -110,8 +118,14 @@ struct IterSlot {
     seen_none: bool,
 }
 
+/// A live iterator on its way to another thread. Only ever constructed when the probe says
+/// the iterator type is `Send` on the tree under test.
+struct SendSlot(IterSlot);
+unsafe impl Send for SendSlot {}
+
 /// Harness-side state of a run; only ever touched by the token holder.
 pub struct World {
+    mailbox: Vec<Vec<SendSlot>>,
     pool: Vec<Option<Arc<Obj>>>,
     next_obj: u32,
     freed_addrs: Vec<usize>,
@@ -888,6 +902,61 @@ impl Ctx {
                 };
                 let _ = EXIT_CALLS.try_with(|l| l.0.borrow_mut().push(call));
             }
+            Op::GiveIter { it, to } => {
+                let method = self
+                    .iters
+                    .get(*it)
+                    .and_then(|s| s.as_ref())
+                    .map(|s| s.req.method);
+                let sendable = match method {
+                    Some(Method::Tokenize) => iter_send().0,
+                    Some(Method::Analyze) => iter_send().1,
+                    _ => false,
+                };
+                if !sendable || *to >= self.spec.threads() || *to == self.me() {
+                    return self.log(format!(
+                        "t={} T{} #{} give it{}: skipped (no live iterator, or its type is not Send)",
+                        now(),
+                        self.me(),
+                        i,
+                        it
+                    ));
+                }
+                if let Some(slot) = self.iters.get_mut(*it).and_then(|s| s.take()) {
+                    self.log(format!(
+                        "t={} T{} #{} gives it{} (obj{}) to T{}",
+                        now(),
+                        self.me(),
+                        i,
+                        it,
+                        slot.obj.id,
+                        to
+                    ));
+                    let mut w = wlock(&self.world);
+                    w.rec.iters_moved += 1;
+                    w.mailbox[*to].push(SendSlot(slot));
+                }
+            }
+            Op::TakeIter { it } => {
+                let me = self.me();
+                let got = wlock(&self.world).mailbox[me].pop();
+                match got {
+                    Some(SendSlot(slot)) if *it < self.iters.len() => {
+                        self.drop_iter(*it, true);
+                        self.log(format!(
+                            "t={} T{} #{} takes a handed-over iterator (obj{}) into it{}",
+                            now(),
+                            me,
+                            i,
+                            slot.obj.id,
+                            it
+                        ));
+                        self.iters[*it] = Some(slot);
+                    }
+                    Some(SendSlot(slot)) => drop(slot),
+                    None => self.log(format!("t={} T{} #{} take: nothing handed over", now(), me, i)),
+                }
+            }
             Op::ClockAdvance { ms } => {
                 crate::clock::jump_ms(*ms);
                 wlock(&self.world).rec.clock_jumps += 1;
@@ -1066,6 +1135,7 @@ pub fn run(
         rec: std::mem::take(&mut rec),
         probes: [0; NSITES],
         callsigs: Vec::new(),
+        mailbox: (0..spec.threads()).map(|_| Vec::new()).collect(),
     }));
     let use_pool = match pool {
         Some(p) => !spec.fresh_threads && p.size() >= spec.threads(),
